@@ -76,7 +76,10 @@ def check_postdom(ctx, cls):
         return
     bad = []
     for p in good:
-        fm = [e for e in p.events if e.kind == "format_call" and e.func is not None and e.func.cls is not None and e.func.cls.name == cls.name]
+        # the formatter call that produced the returned value: made by _predict itself or by a helper / converter of a
+        # base class that _predict delegates to (e.g. CollectiveAnomalyDetector.dense_to_sparse) - what counts is that the
+        # value predict hands back is the output of the expected formatter
+        fm = [e for e in p.events if e.kind == "format_call"]
         if not (isinstance(p.value, OpaqueV) and p.value.key == "formatted" and fm and fm[-1].data["owner"] == EXPECT_FMT[cls.name]):
             bad.append((repr(p.value)[:60], [e.data["owner"] for e in fm]))
     ctx.check(not bad, rule, cls.name, pred.loc(), f"every returning path of _predict ({len(good)}) returns {EXPECT_FMT[cls.name]}._format_sparse_output(...)", found=bad[:2] or "formatter output on all paths", expected=EXPECT_FMT[cls.name])
